@@ -2843,7 +2843,10 @@ PSVALUE_STRATA = (
      'psvalue/into/more-parts/err', 'psvalue/into/fewer-parts/err', 'psvalue/into/leaf-size/err',
      'psvalue/into/structure/err', 'psvalue/into/nested', 'psvalue/into/weighted',
      'psvalue/array/asarray-dtype-float32', 'psvalue/array/asarray-dtype-float64',
-     'psvalue/array/tensor-plus-power'])
+     'psvalue/array/tensor-plus-power'] +
+    ['psvalue/outbranch/' + f for f in ('same', 'scalar', 'inplace', 'sub', 'more-parts',
+                                         'fewer-parts', 'twoout-fresh', 'twoout-given',
+                                         'twoout-mixed')])
 
 
 def run_psvalue(ctx, V, n_random):
@@ -2889,6 +2892,101 @@ def run_psvalue(ctx, V, n_random):
             ctx.hit('psvalue/array/' + form)
             for code, text in problems:
                 V.add(ps_key(case, code), text[:400], case)
+    ps_out_branches(ctx, V)
+
+
+def ps_out_branches(ctx, V):
+    """out= branches of the (2,1) wrapper and the (1,2) wrapper of wrap_ufunc_productspace
+    (oracle-only: NumPy on the concatenated underlying values; identity of the outs; the
+    part-count rejection of /repo 2fbe3b2 before anything is written)."""
+    L3, L2 = ['L', 'rn', [3]], ['L', 'rn', [2]]
+    P2 = ['N', [L3, L3], None]
+    specs = [P2, ['N', [P2, L2], [2.0, 3.0]], ['N', [['L', 'discr', 2], ['L', 'rn', [2, 2]]], 2.0]]
+    rng = ctx.rng
+    pool = [Fraction(k, 4) for k in range(-12, 13) if k != 0]
+    for spec in specs:
+        for form in ('same', 'scalar', 'inplace', 'sub', 'more-parts', 'fewer-parts',
+                     'twoout-fresh', 'twoout-given', 'twoout-mixed'):
+            if form == 'sub' and spec is not P2:
+                continue
+            case = {'stream': 'psvalue', 'op': 'outbranch', 'name': form, 'spec': spec,
+                    'vals': ps_vals(rng, spec, pool), 'yvals': ps_vals(rng, spec, pool)}
+            try:
+                problems = ps_outbranch_case(case)
+            except Exception as e:  # noqa
+                problems = [('case-construction-raised:' + type(e).__name__, str(e)[:200])]
+            ctx.case(('psvalue', 'outbranch', form, ps_shape_str(spec)) if not problems else None)
+            ctx.hit('psvalue/outbranch/' + form)
+            for code, text in problems:
+                V.add(ps_key(case, code), text[:400], case)
+
+
+def ps_outbranch_case(case):
+    spec, form = case['spec'], case['name']
+    space = ps_build(spec)
+    x = ps_element(space, spec, case['vals'])
+    y = ps_element(space, spec, case['yvals'])
+    fx, fy = ps_flat(x, spec).copy(), ps_flat(y, spec).copy()
+    problems = []
+
+    def fresh(sp=space, spc=spec):
+        o = sp.element()
+        for l in ps_leaf_objs(o, spc):
+            l[:] = 7.0
+        return o
+    if form.startswith('twoout'):
+        o1 = fresh() if form != 'twoout-fresh' else None
+        o2 = fresh() if form == 'twoout-given' else None
+        res = ps_call(lambda: x.ufuncs.modf(out1=o1, out2=o2))
+        r1, r2 = np.modf(fx)
+        if res[0] == 'err':
+            return [('impl-raised:' + type(res[1]).__name__, exc_desc(res[1]))]
+        a, b = res[1]
+        if (o1 is not None and a is not o1) or (o2 is not None and b is not o2):
+            problems.append(('out-identity', 'a given out is not returned'))
+        if a not in space or b not in space:
+            problems.append(('result-space', 'results not in the space'))
+        elif not ps_same_floats(ps_flat(a, spec), r1) or not ps_same_floats(ps_flat(b, spec), r2):
+            problems.append(('values', 'modf values differ from NumPy on the underlying values'))
+    else:
+        if form in ('more-parts', 'fewer-parts'):
+            kids = list(spec[1]) + [spec[1][-1]] if form == 'more-parts' else list(spec[1])[:-1]
+            ospec = ['N', kids, None]
+            osp = ps_build(ospec)
+            o = fresh(osp, ospec)
+        else:
+            ospec = spec
+            o = x if form == 'inplace' else fresh()
+        if form == 'scalar':
+            arg, ref = 2.5, fx * 2.5
+            res = ps_call(lambda: x.ufuncs.multiply(arg, out=o))
+        elif form == 'sub':
+            arg = ps_element(space[0], spec[1][0], case['yvals'][0])
+            ref = (fx.reshape(len(spec[1]), -1) + ps_flat(arg, spec[1][0])).ravel()
+            res = ps_call(lambda: x.ufuncs.add(arg, out=o))
+        else:
+            arg, ref = y, fx + fy
+            res = ps_call(lambda: x.ufuncs.add(arg, out=o))
+        if form in ('more-parts', 'fewer-parts'):
+            if res[0] == 'ok':
+                problems.append(('out-part-count-not-checked', 'x has {} parts, out has {}: no '
+                                 'error'.format(len(spec[1]), len(ospec[1]))))
+            elif not isinstance(res[1], ValueError):
+                problems.append(('out-part-count-wrong-exception', exc_desc(res[1])))
+            elif not bool(np.all(ps_flat(o, ospec) == 7.0)):
+                problems.append(('out-part-count-rejected-after-writing', 'out was written'))
+        elif res[0] == 'err':
+            problems.append(('impl-raised:' + type(res[1]).__name__, exc_desc(res[1])))
+        else:
+            if res[1] is not o:
+                problems.append(('out-identity', 'the returned object is not the given out'))
+            if not ps_same_floats(ps_flat(o, ospec), ref):
+                problems.append(('out-contents', 'out does not hold NumPy\'s result'))
+            if form != 'inplace' and not ps_same_floats(ps_flat(x, spec), fx):
+                problems.append(('operand-modified', 'x changed'))
+        if not ps_same_floats(ps_flat(y, spec), fy):
+            problems.append(('operand-modified', 'x2 changed'))
+    return problems
 
 
 def ps_array_case(case):
@@ -2915,6 +3013,295 @@ def ps_array_case(case):
               bool(np.all(res[1] == want))):
         problems.append(('values', '{!r} vs NumPy {!r}'.format(res[1], want)))
     return problems
+
+
+# ---------------------------------------------------------------------------
+# ROUND 5: strata for anchored code that no stream executed (tools/covmap.py):
+#   base/...      Tensor.__array_ufunc__ / __array_wrap__ of base_tensors.py (the default glue a
+#                 backend inherits; NumpyTensor overrides it, so it is called unbound here). Its
+#                 docstring allows raw arrays as results, so the oracle is: same VALUES and dtype
+#                 as NumPy on the plain arrays, contents written to out, `at` in place, operands
+#                 untouched, the three rejections.  No Lean model (oracle-only).
+#   elemptr/...   NumpyTensorSpace.element(data_ptr=..., order=...) / invalid order / both given,
+#                 NumpyTensor.data_ptr; DiscretizedSpace.element(tensor) / (own) / (order=...):
+#                 no-copy wrapping (shares memory, same values).
+#   psvalue/bininto, psvalue/twoout: the out= branches of the (2,1) and (1,2) wrappers of
+#                 wrap_ufunc_productspace (values / identity / part-count rejection).
+
+BASE_SPACES = {
+    'rn3': lambda odl: odl.rn(3),
+    'rn23': lambda odl: odl.rn((2, 3)),
+    'int3': lambda odl: odl.tensor_space(3, dtype='int64'),
+    'rn3w': lambda odl: odl.rn(3, weighting=[1.0, 2.0, 4.0]),
+    'cn3': lambda odl: odl.cn(3),
+}
+
+
+def base_cases():
+    """(label, ufunc name, method, operand pattern, kw, out pattern)"""
+    C = []
+    for outp in ('n', 'e', 'a'):
+        C.append(('call1', 'negative', '__call__', 'x', {}, outp))
+        C.append(('call2', 'add', '__call__', 'xy', {}, outp))
+        C.append(('call2arr', 'multiply', '__call__', 'xa', {}, outp))
+        C.append(('call2scal', 'subtract', '__call__', 'sx', {}, outp))
+        C.append(('accumulate', 'add', 'accumulate', 'x', {}, outp))
+    C.append(('calldtype', 'add', '__call__', 'xy', {'dtype': 'complex128'}, 'n'))
+    C.append(('calldtype', 'add', '__call__', 'xy', {'dtype': 'complex128'}, 'c'))
+    for outp in ('n', 'ee', 'an', 'na'):
+        C.append(('call12', 'modf', '__call__', 'x', {}, outp))
+        C.append(('call22', 'divmod', '__call__', 'xy', {}, outp))
+    C.append(('reduce', 'add', 'reduce', 'x', {}, 'n'))
+    C.append(('reduce-axis', 'maximum', 'reduce', 'x', {'axis': 0}, 'n'))
+    C.append(('reduce-axis', 'add', 'reduce', 'x', {'axis': 0}, 'r'))
+    C.append(('outer', 'multiply', 'outer', 'xy', {}, 'n'))
+    C.append(('at', 'add', 'at', 'xi', {}, 'n'))
+    C.append(('at-unary', 'negative', 'at', 'xI', {}, 'n'))
+    C.append(('reduceat', 'add', 'reduceat', 'xr', {}, 'n'))
+    C.append(('bad-arity-call', 'add', '__call__', 'xy', {}, 'ee'))
+    C.append(('bad-arity-method', 'add', 'reduce', 'x', {}, 'ee'))
+    C.append(('bad-out-type', 'add', '__call__', 'xy', {}, 'L'))
+    return C
+
+
+def base_run_one(skey, case):
+    import odl
+    from odl.space.base_tensors import Tensor
+    label, uname, method, ops, kw, outp = case
+    sp = BASE_SPACES[skey](odl)
+    dt = sp.dtype
+    n = int(np.prod(sp.shape))
+    a0 = (np.arange(n) * 1.5 - 2.25).reshape(sp.shape).astype(dt)
+    b0 = (np.arange(n)[::-1] * 0.5 + 1.0).reshape(sp.shape).astype(dt)
+    if dt.kind == 'c':
+        a0 = a0 + 1j * b0
+    x, y = sp.element(a0.copy()), sp.element(b0.copy())
+    u = getattr(np, uname)
+    ins_odl = {'x': [x], 'xy': [x, y], 'xa': [x, b0.copy()], 'sx': [dt.type(2), x],
+               'xi': [x, [0], dt.type(3)], 'xI': [x, [0]], 'xr': [x, [0, 1]]}[ops]
+    ins_np = [np.asarray(o).copy() if isinstance(o, type(x)) else o for o in ins_odl]
+    kw = dict(kw)
+    problems = []
+    # reference without out (also tells the shapes / dtypes of the outs)
+    ref = ps_call(lambda: getattr(u, method)(*[i.copy() if isinstance(i, np.ndarray) else i
+                                               for i in ins_np], **kw))
+    if method == 'at':
+        ref_at = ins_np[0].copy()
+        ps_call(lambda: u.at(ref_at, *ins_np[1:]))
+    outs_odl = None
+    if outp not in ('n',):
+        if outp == 'L':
+            outs_odl = ([0.0] * n,)
+        elif ref[0] != 'ok':
+            return None
+        else:
+            rl = list(ref[1]) if isinstance(ref[1], tuple) else [ref[1]]
+            pat = {'e': 'e', 'a': 'a', 'c': 'a', 'r': 'a'}.get(outp, outp)
+            if label.startswith('bad-arity'):
+                rl = rl * 2
+            outs = []
+            for ch, r in zip(pat, rl):
+                r = np.asarray(r)
+                if ch == 'n':
+                    outs.append(None)
+                elif ch == 'a' or r.shape != tuple(sp.shape):
+                    outs.append(np.full(r.shape, 7, dtype=r.dtype))
+                else:
+                    outs.append(sp.astype(r.dtype).element(np.full(r.shape, 7, dtype=r.dtype)))
+            outs_odl = tuple(outs)
+    okw = dict(kw)
+    if outs_odl is not None:
+        okw['out'] = outs_odl
+    pre = [np.asarray(o).copy() if isinstance(o, (type(x), np.ndarray)) else o for o in ins_odl]
+    res = ps_call(lambda: Tensor.__array_ufunc__(x, u, method, *ins_odl, **okw))
+    cls = 'ok' if res[0] == 'ok' else 'err:' + type(res[1]).__name__
+    if res[0] == 'ok' and res[1] is NotImplemented:
+        cls = 'notimpl'
+    if label == 'bad-arity-call' or label == 'bad-arity-method':
+        if not (res[0] == 'err' and isinstance(res[1], ValueError)):
+            problems.append(('arity-not-rejected', cls))
+        return dict(cls=cls, problems=problems)
+    if label == 'bad-out-type':
+        if cls != 'notimpl':
+            problems.append(('foreign-out-not-NotImplemented', cls))
+        return dict(cls=cls, problems=problems)
+    if ref[0] == 'err':
+        if res[0] != 'err' or type(res[1]) is not type(ref[1]):
+            problems.append(('exception-class', '{} vs NumPy {}'.format(cls, exc_desc(ref[1]))))
+        return dict(cls=cls, problems=problems)
+    if res[0] == 'err':
+        problems.append(('impl-raised:' + type(res[1]).__name__, exc_desc(res[1])))
+        return dict(cls=cls, problems=problems)
+    if method == 'at':
+        if res[1] is not None:
+            problems.append(('at-returns', repr(res[1])[:80]))
+        if not same_special(np.asarray(x), ref_at):
+            problems.append(('at-values', '{} vs NumPy {}'.format(np.asarray(x), ref_at)))
+        return dict(cls=cls, problems=problems)
+    rl = list(ref[1]) if isinstance(ref[1], tuple) else [ref[1]]
+    gl = list(res[1]) if isinstance(res[1], tuple) else [res[1]]
+    if len(rl) != len(gl):
+        problems.append(('result-count', '{} vs {}'.format(len(gl), len(rl))))
+        return dict(cls=cls, problems=problems)
+    for k, (g, r) in enumerate(zip(gl, rl)):
+        ga, ra = np.asarray(g), np.asarray(r)
+        if ga.shape != ra.shape or ga.dtype != ra.dtype or not same_special(ga, ra):
+            problems.append(('values-differ', 'output {}: {!r} vs NumPy {!r}'.format(k, ga, ra)))
+        if outs_odl is not None and outs_odl[k] is not None:
+            oa = np.asarray(outs_odl[k])
+            if not same_special(oa, ra):
+                problems.append(('out-content', 'output {}: out holds {!r}, NumPy {!r}'.format(
+                    k, oa, ra)))
+            if not np.shares_memory(ga, oa) and not same_special(ga, oa):
+                problems.append(('out-not-returned', 'output {}'.format(k)))
+    for o, p in zip(ins_odl, pre):
+        if isinstance(o, (type(x), np.ndarray)) and not same_special(np.asarray(o), p):
+            problems.append(('operand-modified', ''))
+    return dict(cls=cls, problems=problems)
+
+
+def base_wrap_checks(skey):
+    """Tensor.__array_wrap__ (base): 0-d -> field element, else space.element (no copy)."""
+    import odl
+    from odl.space.base_tensors import Tensor
+    sp = BASE_SPACES[skey](odl)
+    x = sp.one()
+    problems = []
+    arr = np.full(sp.shape, 2, dtype=sp.dtype)
+    r = ps_call(lambda: Tensor.__array_wrap__(x, arr))
+    if r[0] != 'ok' or r[1] not in sp or not np.shares_memory(np.asarray(r[1]), arr) or \
+            not same_special(np.asarray(r[1]), arr):
+        problems.append(('array-wrap', 'base __array_wrap__ of an array of the space: {}'.format(
+            exc_desc(r[1]) if r[0] == 'err' else 'not a memory-sharing element of the space')))
+    z = np.array(2.5, dtype=sp.dtype)
+    r = ps_call(lambda: Tensor.__array_wrap__(x, z))
+    if r[0] != 'ok' or r[1] not in sp.field or r[1] != z[()]:
+        problems.append(('array-wrap-0d', 'base __array_wrap__ of a 0-d array: {}'.format(
+            exc_desc(r[1]) if r[0] == 'err' else repr(r[1]))))
+    return problems
+
+
+def elemptr_checks(skey):
+    """element(data_ptr=...), invalid order, both given; data_ptr; discretized wrapping."""
+    import odl
+    sp = BASE_SPACES[skey](odl)
+    out = []   # (stratum, problems)
+    n = int(np.prod(sp.shape))
+    arr = (np.arange(n) * 0.5).reshape(sp.shape).astype(sp.dtype)
+    for order in ('C', 'F'):
+        src = np.asarray(arr, order=order).copy(order=order)
+        r = ps_call(lambda: sp.element(data_ptr=src.ctypes.data, order=order))
+        p = []
+        if r[0] != 'ok':
+            p.append(('impl-raised:' + type(r[1]).__name__, exc_desc(r[1])))
+        else:
+            if not same_special(np.asarray(r[1]), src):
+                p.append(('values', '{!r} vs {!r}'.format(np.asarray(r[1]), src)))
+            if not np.shares_memory(np.asarray(r[1]), src):
+                p.append(('copied', 'element from pointer does not share memory'))
+            r[1][...] = 5      # writes through
+            if not bool(np.all(src == 5)):
+                p.append(('no-write-through', ''))
+        out.append(('elemptr/data_ptr/' + order, p))
+    x = sp.element(arr.copy())
+    r = ps_call(lambda: sp.element(data_ptr=x.data_ptr, order='C'))
+    p = []
+    if r[0] != 'ok' or not np.shares_memory(np.asarray(r[1]), np.asarray(x)) or \
+            not same_special(np.asarray(r[1]), np.asarray(x)):
+        p.append(('data-ptr-roundtrip', exc_desc(r[1]) if r[0] == 'err' else 'not shared / equal'))
+    out.append(('elemptr/data_ptr/roundtrip', p))
+    for form, f in (('order-none', lambda: sp.element(data_ptr=arr.ctypes.data)),
+                    ('bad-order', lambda: sp.element(arr, order='X')),
+                    ('both-given', lambda: sp.element(arr, data_ptr=arr.ctypes.data, order='C'))):
+        r = ps_call(f)
+        out.append(('elemptr/rejects/' + form,
+                    [] if r[0] == 'err' and isinstance(r[1], (ValueError, TypeError)) else
+                    [('not-rejected', repr(r[1])[:80])]))
+    for order in ('C', 'F'):
+        r = ps_call(lambda: sp.element(order=order))
+        p = []
+        if r[0] != 'ok' or r[1] not in sp or not np.asarray(r[1]).flags[order + '_CONTIGUOUS']:
+            p.append(('empty-order', exc_desc(r[1]) if r[0] == 'err' else 'wrong layout'))
+        out.append(('elemptr/empty/' + order, p))
+    if sp.dtype.kind == 'f' and not sp.is_weighted:
+        D = odl.uniform_discr([0] * sp.ndim, [1] * sp.ndim, sp.shape)
+        t = D.tspace.element(arr.copy())
+        r = ps_call(lambda: D.element(t))
+        p = []
+        if r[0] != 'ok' or r[1] not in D or not np.shares_memory(np.asarray(r[1]), np.asarray(t)) \
+                or not same_special(np.asarray(r[1]), arr):
+            p.append(('discr-wrap-tensor', exc_desc(r[1]) if r[0] == 'err' else 'copied / differs'))
+        d = r[1] if r[0] == 'ok' else None
+        if d is not None and D.element(d) is not d:
+            p.append(('discr-element-of-own', 'D.element(d) is not d'))
+        r2 = ps_call(lambda: D.element(order='F'))
+        if r2[0] != 'ok' or r2[1] not in D:
+            p.append(('discr-empty-order', exc_desc(r2[1]) if r2[0] == 'err' else 'not in space'))
+        out.append(('elemptr/discr-wrap', p))
+    return out
+
+
+def run_round5(ctx, V):
+    for skey in BASE_SPACES:
+        for case in base_cases():
+            label, uname, method, ops, kw, outp = case
+            if skey == 'int3' and uname in ('modf',):
+                continue
+            if skey == 'cn3' and uname in ('modf', 'divmod', 'maximum'):
+                continue
+            if skey != 'rn23' and label == 'reduce-axis' and outp == 'r':
+                continue
+            rc = {'stream': 'base', 'space': skey, 'case': list(case)}
+            try:
+                r = base_run_one(skey, case)
+            except Exception as e:  # noqa
+                V.add('base space={} label={} ufunc={} out={} code=case-construction-raised:{}'
+                      .format(skey, label, uname, outp, type(e).__name__), str(e)[:300], rc)
+                continue
+            if r is None:
+                continue
+            ctx.case(('base', skey, label, uname, outp) if r['cls'] == 'ok' else None)
+            ctx.hit('base/{}/{}'.format(label, 'out' if outp != 'n' else 'noout'))
+            for code, text in r['problems']:
+                V.add('base space={} label={} ufunc={} out={} code={}'.format(
+                    skey, label, uname, outp, code), '{} :: {}'.format(text, r['cls'])[:400], rc)
+        for code, text in base_wrap_checks(skey):
+            V.add('base space={} label=array_wrap ufunc=- out=- code={}'.format(skey, code), text,
+                  {'stream': 'base', 'space': skey, 'case': 'wrap'})
+        ctx.hit('base/array_wrap')
+        ctx.case(('base', skey, 'array_wrap'))
+        for stratum, problems in elemptr_checks(skey):
+            ctx.hit(stratum)
+            ctx.case(('elemptr', skey, stratum) if not problems else None)
+            for code, text in problems:
+                V.add('elemptr space={} stratum={} code={}'.format(skey, stratum, code), text,
+                      {'stream': 'elemptr', 'space': skey, 'stratum': stratum})
+
+
+def replay_round5(case):
+    if case['stream'] == 'base':
+        if case['case'] == 'wrap':
+            probs = base_wrap_checks(case['space'])
+        else:
+            r = base_run_one(case['space'], tuple(case['case'][:4]) + (case['case'][4],
+                                                                       case['case'][5]))
+            probs = r['problems'] if r else []
+    else:
+        probs = [p for s, ps_ in elemptr_checks(case['space']) if s == case['stratum']
+                 for p in ps_]
+    return '; '.join('{}: {}'.format(a, b) for a, b in probs) if probs else None
+
+
+ROUND5_STRATA = (
+    ['base/{}/{}'.format(l, o) for l in ('call1', 'call2', 'call2arr', 'call2scal', 'accumulate',
+                                         'call12', 'call22') for o in ('noout', 'out')] +
+    ['base/calldtype/noout', 'base/calldtype/out', 'base/reduce/noout', 'base/reduce-axis/noout',
+     'base/reduce-axis/out', 'base/outer/noout', 'base/at/noout', 'base/at-unary/noout',
+     'base/reduceat/noout', 'base/bad-arity-call/out', 'base/bad-arity-method/out',
+     'base/bad-out-type/out', 'base/array_wrap',
+     'elemptr/data_ptr/C', 'elemptr/data_ptr/F', 'elemptr/data_ptr/roundtrip',
+     'elemptr/rejects/order-none', 'elemptr/rejects/bad-order', 'elemptr/rejects/both-given',
+     'elemptr/empty/C', 'elemptr/empty/F', 'elemptr/discr-wrap'])
 
 
 def model_branch(c, r, ans):
@@ -3045,7 +3432,7 @@ EXPECTED_STRATA = (
     ['layout/{}/{}'.format(l, m) for l in ('F', 'strided', 'slice-view')
      for m in ('call', 'at', 'reduce', 'accumulate', 'outer', 'reduceat')] +
     ['history/values/' + k for k in ('tensor', 'discr', 'power')] +
-    SPECIAL_ARGFORM_STRATA + list(PSVALUE_STRATA) +
+    SPECIAL_ARGFORM_STRATA + list(PSVALUE_STRATA) + list(ROUND5_STRATA) +
     ['history/{}/{}'.format(c, s) for c in ('isnan', 'less', 'signbit', 'mul1j', 'add_f32',
                                             'true_divide', 'sin')
      for s in ('rn3^2', 'discr3^2', 'rn4^2', 'cn3^2', 'rn3^3', 'f32_3^2', 'discr2x2^2',
@@ -3243,13 +3630,18 @@ def run(ctx, deep=False):
         V.add('psvalue stream raised {}({})'.format(type(e).__name__, msg_tag(e)),
               '{}: {}'.format(type(e).__name__, str(e)[:200]), {'stream': 'psvalue-stream'})
     try:
+        run_round5(ctx, V)
+    except Exception as e:  # noqa
+        V.add('round5 strata raised {}({})'.format(type(e).__name__, msg_tag(e)),
+              '{}: {}'.format(type(e).__name__, str(e)[:200]), {'stream': 'round5-stream'})
+    try:
         run_history(ctx, V)
     except Exception as e:  # noqa
         V.add('history stream raised {}({})'.format(type(e).__name__, msg_tag(e)),
               '{}: {}'.format(type(e).__name__, str(e)[:200]), {'stream': 'history'})
     V.flush()
     strata = set(k for k in ctx.branches if k.startswith(('layout/', 'history/', 'special/',
-                                                            'argform/', 'psvalue/')))  # incl. history/values/
+                                                            'argform/', 'psvalue/', 'base/', 'elemptr/')))  # incl. history/values/
     ctx.extra['unhit_strata'] = sorted(set(EXPECTED_STRATA) - strata)
     if ctx.extra['unhit_strata'] and ctx.tier == 'thorough':
         ctx.disagree({'unhit_strata': ctx.extra['unhit_strata']},
@@ -3322,6 +3714,14 @@ def replay(ctx, case):
         run_history(ctx, v)
         hits = [w for k, w, d in v.items if d == case]
         return '; '.join(hits) if hits else None
+    if case.get('stream') in ('base', 'elemptr'):
+        return replay_round5(case)
+    if case.get('stream') == 'psvalue' and case.get('op') == 'outbranch':
+        try:
+            probs = ps_outbranch_case(case)
+        except Exception as e:  # noqa
+            return 'case construction raised {}: {}'.format(type(e).__name__, str(e)[:200])
+        return '; '.join('{}: {}'.format(a, b) for a, b in probs) if probs else None
     if case.get('stream') == 'psvalue' and case.get('op') == 'array':
         probs = ps_array_case(case)
         return '; '.join('{}: {}'.format(a, b) for a, b in probs) if probs else None
